@@ -243,6 +243,17 @@ def kind_cases(tier):
             for sa in ([], [1] * len(src), [len(e["data"])]):
                 out.append({"family": "sockets", "name": f"{e['name']}+{a['name']}/{len(sa)}",
                             "conns": [{"name": e["name"] + "+" + a["name"], "source": src, "segs": sa}]})
+    # a frame with line-ending / padding junk INSERTED at any position, the receive boundary falling
+    # right before or right behind the junk (a transport layer that trims each received segment
+    # would splice the two halves into a frame that never was in the stream)
+    for nm in ("F2", "F19", "F1"):
+        fr = f[nm]["data"]
+        for junk in (b"\r\n", b"\n", b"\r", b"\x00", b" ", b"\r\n\r\n", b"0\r\n"):
+            for pos in range(1, len(fr)):
+                src = fr[:pos] + junk + fr[pos:] + f["F0"]["data"] + f["F2"]["data"]
+                for sa in ([pos], [pos + len(junk)], [pos, len(junk)]):
+                    out.append({"family": "sockets", "name": f"{nm}ins{pos}:{junk.hex()}/{sa}",
+                                "conns": [{"name": f"{nm}ins{pos}:{junk.hex()}", "source": src, "segs": sa}]})
     # chunked transfer coding over a socket: the decoded stream is the source, every two-way split
     # of the encoded stream (and byte-wise delivery) is tried
     def chunked(data, size):
